@@ -8,10 +8,9 @@
  "defines": ["VERIF_HALLOC", "HTTP_N=24", "HTTP_BODYMAX=8", "VERIF_STRMAX=32"],
  "thorough_defines": ["HTTP_N=64", "VERIF_STRMAX=72"],
  "models": ["models/libc_string.c", "models/http_env.c"],
- "cbmc": ["--object-bits", "10"],
  "loop_contracts": false,
  "allow_undefined": ["strtod", "strtoimax", "fprintf", "abort"],
- "timeout": 900,
+ "timeout": 600,
  "assumptions": ["reader window object <= HTTP_N bytes", "strtoumax: models/http_env.c (C11 7.22.1.4; requires a NUL-terminated string inside the object)",
    "findeol, callback_readdata, docallback, toobig, fail, die: replaced by their contracts (enforced in their own groups)"]
 }
